@@ -47,6 +47,23 @@ def chain_explorer(ctx: Ctx, **kw):
     return ctx.explorer(inline=inl, may_raise=may_raise, max_paths=40000, **kw)
 
 
+def explore_within_budget(ctx: Ctx, fn: FuncInfo, rid: str, may_raise_off: bool = False):
+    """Paths of fn through the evaluation chain, loops unrolled twice; when that exceeds the path budget (a routine
+    with many data-dependent loops) once - recorded in the evidence, never silently."""
+    for unroll in (2, 1):
+        ex = chain_explorer(ctx, unroll=unroll)
+        if may_raise_off:
+            ex._may_raise = None
+        try:
+            return ex.explore(fn)
+        except AnalysisError as e:
+            if 'path budget' not in str(e) or unroll == 1:
+                raise
+            ctx.note(f'{rid}: path budget exceeded with loops unrolled twice; {fn.short} analysed with loops '
+                     f'unrolled once (loops over list displays are still exact)')
+    return []
+
+
 def r16_1(ctx: Ctx):
     rid = 'R16.1'
     ctx.rule(rid, 'every path of the solve driver on which the objective raises is caught (whatever the exception '
@@ -58,9 +75,8 @@ def r16_1(ctx: Ctx):
         ctx.fail(rid, f'role {e.role}', 'iOpt/', str(e), key=f'{rid}::role::{e.role}')
         return
     pcs = {roles.fq(p) for p in roles.problem_calcs}
-    ex = chain_explorer(ctx, unroll=2)
     n = 0
-    for p in ex.explore(sd):
+    for p in explore_within_budget(ctx, sd, rid):
         fails = [i for i, e in enumerate(p.events) if e.kind == 'raise' and e.d.get('implicit')]
         if not fails:
             continue
@@ -143,12 +159,11 @@ def r16_2_3(ctx: Ctx):
         return
     pcs = {roles.fq(p) for p in roles.problem_calcs}
     lst = roles.listener_methods()
-    ex = chain_explorer(ctx, unroll=2)
-    ex._may_raise = None
     muts = roles.mutations()
     n = 0
     n3 = 0
-    for p in C.normal_paths(ex.explore(drv)):
+    ex = chain_explorer(ctx, unroll=2)        # only its effect summaries (writes_of) are used below
+    for p in C.normal_paths(explore_within_budget(ctx, drv, rid, may_raise_off=True)):
         evs = p.events
         # trips of the iteration loop
         starts = [i for i, e in enumerate(evs) if e.kind == 'iter' and e.depth == 0 and e.func is drv]
@@ -252,7 +267,62 @@ def r16_2_3(ctx: Ctx):
     ctx.floor(rid, 'regular iteration trips analysed', n, 1)
 
 
+def r16_4(ctx: Ctx):
+    """A trial is completely recorded (optimum updated, item inserted) before the next objective call starts -
+    wherever the two evaluations sit (the first iteration included): otherwise a failure of evaluation k >= 2
+    loses, or half-records, the completed trial k-1 although it was counted."""
+    rid = 'R16.4'
+    ctx.rule(rid, 'between two objective evaluations on a path of the iteration driver the earlier trial has been '
+                  'passed to the optimum updater and inserted into the search data')
+    roles = C.roles_of(ctx)
+    try:
+        drv, er, tw, up, rn = roles.iter_driver, roles.eval_routine, roles.task_wrapper, roles.optimum_updater, \
+            roles.renewal
+    except RoleMissing as e:
+        ctx.fail(rid, f'role {e.role}', 'iOpt/', str(e), key=f'{rid}::role::{e.role}')
+        return
+    ins = set(roles.sd_method('InsertDataItem'))
+    n = 0
+    for p in C.normal_paths(explore_within_budget(ctx, drv, rid, may_raise_off=True)):
+        pending = None         # (keys of the evaluated item, event, state)
+        for e in p.events:
+            if e.kind != 'call':
+                continue
+            cs = e.d['callees']
+            if er in cs:
+                n += 1
+                a = e.d['args'][0] if e.d['args'] else None
+                if pending is not None and not (pending[2]['optimum'] and pending[2]['insert']):
+                    miss = [k for k, v in pending[2].items() if not v]
+                    ctx.fail(rid, e.func.short, e.loc(),
+                             f'an objective evaluation starts while the previous trial (evaluated at '
+                             f'{pending[1].loc()}) is not yet recorded ({", ".join(miss)} missing): if this evaluation '
+                             f'raises, Solve returns a result that counts the completed trial but does not contain it',
+                             key=f'{rid}::{e.func.short}::evaluation-before-recording')
+                keys = {key_of(a)} if a is not None else set()
+                pending = (keys, e, {'optimum': False, 'insert': False})
+                continue
+            if pending is None:
+                continue
+            a0 = e.d['args'][0] if e.d['args'] else None
+            if a0 is None:
+                continue
+            same = key_of(a0) in pending[0]
+            if up in cs and same:
+                pending[2]['optimum'] = True
+            if (rn in cs or (ins & set(c for c in cs if isinstance(c, FuncInfo)))) and same:
+                pending[2]['insert'] = True
+            # the evaluation routine returns its argument: later names of the same item
+            if er in cs and e.d.get('result') is not None:
+                pending[0].add(key_of(e.d['result']))
+    ctx.floor(rid, 'objective evaluations on paths of the iteration driver', n, 2)
+    if not any(f.rule == rid for f in ctx.findings):
+        ctx.ok(rid, drv.short, 'every trial is recorded before the next evaluation starts', drv.loc())
+
+
 def check(ctx: Ctx):
+    if C.want(ctx, 'R16.4'):
+        r16_4(ctx)
     if C.want(ctx, 'R16.1'):
         r16_1(ctx)
     if C.want(ctx, 'R16.2') or C.want(ctx, 'R16.3'):
